@@ -382,8 +382,18 @@ func (w *evictWorld) assertReclaimFair() {
 		if !w.placed(p) {
 			continue
 		}
-		for q := p.queue; q != ""; q = w.queueOf(q).parent {
+		child := ""
+		for q := p.queue; q != ""; child, q = q, w.queueOf(q).parent {
 			des := w.queueOf(q).deserved
+			// For an ancestor the property only forbids "above its fair share AND at least as saturated as
+			// the sibling it took from" (decided on the kernel, VerifC07_AncestorSaturation*). When the
+			// quotas below the ancestor are oversubscribed the child's fair share may exceed the ancestor's
+			// (the quota step grants min(deserved, request) whatever the parent has), and the ancestor may
+			// legitimately end above its own; the stronger "within fair share" is asserted for the
+			// reclaimer's own queue and for ancestors whose share covers the child's.
+			if child != "" && fs(child) > fs(q) {
+				continue
+			}
 			vr.Assert(w.postAlloc(q) <= fs(q) || des < 0 || w.postAlloc(q) <= des, w.pid()+".reclaim-action-keeps-reclaimer-within-fair-share")
 			if !p.preempt && des >= 0 && len(w.others) == 0 {
 				np := p.cpu[0] // the reclaimer's queues hold no other workload in this world
